@@ -293,6 +293,9 @@ def string(w, k):
         _roundtrip(w, seq, lambda s: s.load_string(k), lambda s: s.preload_string(k), txt)
     # byte_length 0 = everything that remains (whole bytes)
     s = mk_slice(w, seq, [])
+    kk, got = call(s.preload_string)
+    w.claim('preload_string() returns all remaining bytes', w.And(kk == 'ok', got == txt))
+    w.claim('preload_string() consumes nothing', w.eq_seq(bits_of(w, s), seq))
     kk, got = call(s.load_string)
     w.claim('load_string() reads all remaining bytes', w.And(kk == 'ok', got == txt))
     w.claim('load_string() leaves nothing', w.eq_seq(bits_of(w, s), Seq()))
@@ -327,6 +330,9 @@ def refs(w, q, op):
         s = mk_slice(w, rest, kids, ref_offset=off)
         k, got = call(s.preload_ref)
         w.claim('preload_ref returns next ref', k == 'ok' and got is kids[off] and s.ref_offset == off)
+        for ahead in range(0, q - off):
+            k, got = call(s.preload_ref, ahead)
+            w.claim(f'preload_ref({ahead}) returns the reference {ahead} after the cursor', k == 'ok' and got is kids[off + ahead] and s.ref_offset == off)
         k, got = call(s.load_ref)
         w.claim('load_ref returns next ref', k == 'ok' and got is kids[off] and s.ref_offset == off + 1)
         w.claim('load_ref leaves bits', w.eq_seq(bits_of(w, s), rest))
@@ -458,3 +464,35 @@ def snake(w, n, p8):
         s.load_bytes(p8)
     k, got = call(s.load_snake_bytes)
     w.claim('load_snake_bytes returns the value', w.And(k == 'ok', got == data))
+
+
+@obligation('C06.snake_string', 'C06', cases=[{'n': n, 'prefix': p} for n in (0, 3, 126, 127, 128, 300) for p in (False, True)],
+            fuc=[B + 'store_snake_string', B + 'store_snake_bytes', S + 'load_snake_string', S + 'load_snake_bytes'],
+            assumes=['T2: str.encode()/bytes.decode() are an inverse pair on valid UTF-8 (text modelled by its UTF-8 bytes)'],
+            descr='store_snake_string(text, need_prefix) writes exactly what store_snake_bytes writes for the UTF-8 bytes of the text, '
+                  'preceded by one zero byte when a prefix is asked for; load_snake_string returns the stored text (with that byte)')
+def snake_string(w, n, prefix):
+    from pytoniq_core.boc.builder import Builder
+    raw = w.bytes('D', n)
+    if w.symbolic:
+        from vf.shims import SymText
+        txt = SymText(raw) if type(raw) is not bytes else raw.decode('latin1')
+    else:
+        raw = bytes((x % 95) + 32 for x in raw)
+        txt = raw.decode()
+    k, b1 = call(Builder().store_snake_string, txt, prefix)
+    w.claim(f'store_snake_string does not raise ({b1 if k != "ok" else ""})', k == 'ok')
+    if k != 'ok':
+        return
+    b2 = Builder().store_snake_bytes((b'\x00' + raw) if prefix else raw)
+    x, y = b1, b2
+    depth = 0
+    while True:
+        w.claim(f'cell {depth}: same bits as store_snake_bytes of the (prefixed) UTF-8 bytes', w.eq_seq(bits_of(w, x), bits_of(w, y)))
+        w.claim(f'cell {depth}: same number of references', len(x.refs) == len(y.refs))
+        if len(x.refs) != len(y.refs) or not x.refs:
+            break
+        x, y = x.refs[0], y.refs[0]
+        depth += 1
+    k2, got = call(b1.end_cell().begin_parse().load_snake_bytes)
+    w.claim('load_snake_bytes returns the stored bytes', w.And(k2 == 'ok', got == ((b'\x00' + raw) if prefix else raw)))
